@@ -423,7 +423,9 @@ theorem signedV21_disassemble (F : V21Cls c) (G : V21Cfg c cfg) (k : ManifestKin
   unfold disassemble
   simp only [F.rDis, hcert, if_true, h3, htake, disassemblyAppData, F.aDis, Bool.false_eq_true, if_false, bind,
     Except.bind, pure, Except.pure]
-  simp only [v21App, cleanIvt_updateIvt _ _ _ _ _ hA]
+  have hal4 : align4 (cleanIvt (appData cfg)) = cleanIvt (appData cfg) :=
+    align4_of_aligned _ (by rw [cleanIvt_length _ hA]; exact align4_length_mod _)
+  simp only [v21App, cleanIvt_updateIvt _ _ _ _ _ hA, hal4]
 
 theorem signedV21_canon_app (F : V21Cls c) (dek : Option Bytes) :
     (canon c cfg dek).app = some (cleanIvt (appData cfg)) := by
@@ -651,7 +653,7 @@ theorem signedV21_tzFromBinary (G : V21Cfg c cfg) (d : Bytes) (h : cfg.tz = .cus
     tzFromBinary c d = .ok (.custom d) := by
   obtain ⟨h1, h2⟩ := G.tz d h
   unfold tzFromBinary
-  rw [if_neg (by rw [h1]; omega), ← h1, List.take_length]
+  rw [if_neg (by omega), if_neg (by rw [h1]; omega), ← h1, List.take_length]
 
 theorem signedV21_step_manifest (F : V21Cls c) (G : V21Cfg c cfg) {k : ManifestKind} (hk : c.manifestKind = some k)
     {e tail : Bytes} (I : V21Img c cfg k e tail) (dek : Option Bytes) (p : Parsed) (m : MixinName)
